@@ -9,6 +9,8 @@ import (
 	"verif/harness/hx"
 
 	baskettypes "github.com/KiraCore/sekai/x/basket/types"
+	collectivestypes "github.com/KiraCore/sekai/x/collectives/types"
+	govtypes "github.com/KiraCore/sekai/x/gov/types"
 	sdk "github.com/cosmos/cosmos-sdk/types"
 )
 
@@ -36,7 +38,50 @@ func (e *env) randomOp() {
 	app := e.c.App
 	e.bk = []uint64{1, 1, 2}[r.Intn(3)]
 	pool := []string{"sp1", "sp1", "sp2"}[r.Intn(3)]
-	switch r.Intn(42) {
+	if r.Chance(18) {
+		e.settlePending(u)
+		return
+	}
+	switch r.Intn(50) {
+	case 42, 43:
+		// touch the identity records pending verify requests hang on: same value (date moves), new value, delete
+		who := []int{1, 2, 3, 4}[r.Intn(4)]
+		switch r.Intn(4) {
+		case 0:
+			e.idRegister(who, map[string]string{"site": "x"})
+		case 1:
+			e.idRegister(who, map[string]string{"moniker": fmt.Sprintf("node%d", who), "site": "x"})
+		case 2:
+			e.idRegister(who, map[string]string{"site": fmt.Sprintf("y%d", r.Intn(3))})
+		default:
+			e.idDelete(who, [][]string{{"site"}, {"site", "site"}, {"moniker"}, {}}[r.Intn(4)])
+		}
+	case 44:
+		// settings the escrows depend on, moved up and down by proposal
+		switch r.Intn(4) {
+		case 0:
+			e.setProperty(govtypes.MinIdentityApprovalTip, []uint64{0, 100, 200, 1000}[r.Intn(4)])
+		case 1:
+			e.setProperty(govtypes.UnstakingPeriod, []uint64{604800, 2629800, 700000}[r.Intn(3)])
+		case 2:
+			e.setProperty(govtypes.MinCollectiveBond, []uint64{1, 100_000, 10_000_000}[r.Intn(3)])
+		default:
+			e.setProperty(govtypes.MaxDelegators, []uint64{1, 2, 100}[r.Intn(3)])
+		}
+	case 45:
+		e.spUpdate(pool, r.Range(1, 900), r.Chance(30))
+	case 46:
+		e.collUpdate([][]collectivestypes.WeightedSpendingPool{
+			{{Name: "sp2", Weight: sdk.OneDec()}},
+			{{Name: "sp1", Weight: sdk.NewDecWithPrec(5, 1)}, {Name: "sp1", Weight: sdk.NewDecWithPrec(5, 1)}},
+			{}}[r.Intn(3)], []uint64{14400, 20000}[r.Intn(2)])
+	case 47:
+		e.dappUpsert(e.draft)
+	case 48:
+		e.basketEdit(r.Range(1, 4), r.Range(0, 5))
+	case 49:
+		// a second request while others are pending: several escrow entries at once
+		e.tipRequest(1+r.Intn(4), 1+r.Intn(4), []int64{300, 450, 2_000}[r.Intn(3)])
 	case 38:
 		// the validator account of pool 2 (a1 issued RR tokens in the setup) is rotated by a holder of at least half of them
 		holder := 1
@@ -197,32 +242,7 @@ func (e *env) randomOp() {
 	case 17, 18:
 		e.tipRequest(1+r.Intn(4), 1+r.Intn(4), []int64{200, 250, 1000, 5000, 777, 199, 0}[r.Intn(7)])
 	case 19, 20:
-		reqs := app.CustomGovKeeper.GetAllIdRecordsVerifyRequests(e.ctx())
-		if len(reqs) == 0 {
-			if r.Chance(15) {
-				e.tipHandle(u, 77, true)
-			} else {
-				e.tipRequest(1+r.Intn(4), 1+r.Intn(4), 300)
-			}
-			return
-		}
-		rq := reqs[r.Intn(len(reqs))]
-		who := u
-		cancel := r.Chance(35)
-		target := rq.Verifier
-		if cancel {
-			target = rq.Address
-		}
-		if !r.Chance(20) {
-			if id, ok := e.acc[target]; ok && id >= 100 && id < 100+int64(len(e.c.Accounts)) {
-				who = int(id - 100)
-			}
-		}
-		if cancel {
-			e.tipCancel(who, rq.Id)
-		} else {
-			e.tipHandle(who, rq.Id, r.Bool())
-		}
+		e.tipSettle(u)
 	case 21:
 		e.dappBond(u, r.Range(1000, 50_000_000))
 	case 22:
@@ -262,6 +282,119 @@ func (e *env) randomOp() {
 	}
 }
 
+
+// settle (handle / cancel) one of the pending identity verify requests, usually by the right party
+func (e *env) tipSettle(u int) {
+	r := e.r
+	app := e.c.App
+	reqs := app.CustomGovKeeper.GetAllIdRecordsVerifyRequests(e.ctx())
+	if len(reqs) < 2 && r.Chance(70) { // keep several requests pending at once
+		e.tipRequest(1+r.Intn(4), 1+r.Intn(4), []int64{300, 800}[r.Intn(2)])
+		return
+	}
+	if len(reqs) == 0 {
+		if r.Chance(15) {
+			e.tipHandle(u, 77, true)
+		} else {
+			e.tipRequest(1+r.Intn(4), 1+r.Intn(4), 300)
+		}
+		return
+	}
+	rq := reqs[r.Intn(len(reqs))]
+	who := u
+	cancel := r.Chance(35)
+	target := rq.Verifier
+	if cancel {
+		target = rq.Address
+	}
+	if !r.Chance(20) {
+		if id, ok := e.acc[target]; ok && id >= 100 && id < 100+int64(len(e.c.Accounts)) {
+			who = int(id - 100)
+		}
+	}
+	// between the request and its settlement, touch the records it names: same values (dates move), a new value, a delete
+	if id, ok := e.acc[rq.Address]; ok && id >= 100 && id < 100+int64(len(e.c.Accounts)) && r.Chance(40) {
+		owner := int(id - 100)
+		same := map[string]string{}
+		for _, rec := range app.CustomGovKeeper.GetIdRecordsByAddress(e.ctx(), e.accAddr(owner)) {
+			same[rec.Key] = rec.Value
+		}
+		switch r.Intn(5) {
+		case 0:
+			e.idRegister(owner, map[string]string{"site": fmt.Sprintf("z%d", r.Intn(2))})
+		case 1:
+			e.idDelete(owner, []string{"site"})
+		default:
+			if len(same) > 0 {
+				e.idRegister(owner, same)
+			}
+		}
+		if app.CustomGovKeeper.GetIdRecordsVerifyRequest(e.ctx(), rq.Id) == nil {
+			return
+		}
+	}
+	if cancel {
+		e.tipCancel(who, rq.Id)
+	} else {
+		e.tipHandle(who, rq.Id, r.Bool())
+	}
+}
+
+// the index of the account with this address, if it is one of the signing accounts
+func (e *env) indexOf(addr string) (int, bool) {
+	if id, ok := e.acc[addr]; ok && id >= 100 && id < 100+int64(len(e.c.Accounts)) {
+		return int(id - 100), true
+	}
+	return 0, false
+}
+
+// settle one PENDING escrow entry of some kind by its rightful party: several entries of every kind stay pending at once,
+// and each is eventually settled after other operations touched the objects it hangs on
+func (e *env) settlePending(u int) {
+	r := e.r
+	app := e.c.App
+	ctx := e.ctx()
+	switch r.Intn(6) {
+	case 0, 1:
+		e.tipSettle(u)
+	case 2:
+		for _, un := range app.MultiStakingKeeper.GetAllUndelegations(ctx) {
+			if who, ok := e.indexOf(un.Address); ok && un.Expiry <= uint64(e.c.Time.Unix()) {
+				e.claimUndelegation(who, un.Id)
+				return
+			}
+		}
+	case 3:
+		bonds := app.Layer2Keeper.GetAllUserDappBonds(ctx)
+		if len(bonds) > 0 {
+			b := bonds[r.Intn(len(bonds))]
+			if who, ok := e.indexOf(b.User); ok && b.Bond.Amount.IsPositive() {
+				amt := b.Bond.Amount.Int64()
+				if r.Bool() && amt > 1 {
+					amt = 1 + r.Range(0, amt-1)
+				}
+				e.dappReclaim(who, amt)
+			}
+		}
+	case 4:
+		ccs := app.CollectivesKeeper.GetCollectiveContributers(ctx, "coll1")
+		if len(ccs) > 0 {
+			if who, ok := e.indexOf(ccs[r.Intn(len(ccs))].Address); ok {
+				e.collWithdraw(who)
+			}
+		}
+	default:
+		for _, pl := range []string{"sp1", "sp2"} {
+			for _, ci := range app.SpendingKeeper.GetPoolClaimInfos(ctx, pl) {
+				if who, ok := e.indexOf(ci.Account); ok && r.Bool() {
+					e.spClaim(who, pl)
+					return
+				}
+			}
+		}
+	}
+}
+
 func (e *env) randomHistory(blocks, opsPerBlock int) {
 	e.setup()
 	for b := 0; b < blocks; b++ {
@@ -286,6 +419,11 @@ func (e *env) randomHistory(blocks, opsPerBlock int) {
 			e.reimport()
 		}
 		e.begin(dt, e.r.Intn(2))
+		if e.draft == nil || e.r.Chance(30) {
+			if d := e.c.App.Layer2Keeper.GetDapp(e.ctx(), "dapp1"); d.Name != "" {
+				e.draft = &d
+			}
+		}
 		n := 1 + e.r.Intn(opsPerBlock)
 		for i := 0; i < n; i++ {
 			e.randomOp()
@@ -413,6 +551,55 @@ func scenarioRotation(e *env) {
 	e.reimport()
 }
 
+// several escrow entries pending at once, and every operation that touches the object an entry hangs on between its
+// creation and its settlement
+func scenarioEscrows(e *env) {
+	e.setup()
+	e.begin(5, 0)
+	ids := func(u int) []uint64 {
+		var out []uint64
+		for _, r := range e.c.App.CustomGovKeeper.GetIdRecordsByAddress(e.ctx(), e.accAddr(u)) {
+			out = append(out, r.Id)
+		}
+		return out
+	}
+	e.tipRequestIDs(1, 4, ids(1), 500)
+	e.tipRequestIDs(2, 4, ids(2), 700)
+	e.tipRequestIDs(3, 1, ids(3), 300)
+	e.tipRequestIDs(4, 1, ids(4)[:1], 900)
+	e.dappBond(3, 5_000_000)
+	e.dappBond(4, 7_000_000)
+	d := e.c.App.Layer2Keeper.GetDapp(e.ctx(), "dapp1")
+	e.undelegate(3, 0, "ukex", 1_000_000)
+	e.undelegate(3, 0, "ukex", 2_000_000)
+	e.end()
+	e.begin(60, 1)
+	e.idRegister(1, map[string]string{"moniker": "node1", "site": "x"}) // same values: only the record dates move
+	e.tipHandle(4, 1, true)                                              // the tip of request 1 may leave the module once
+	e.idRegister(2, map[string]string{"site": "elsewhere"})              // new value: request 2 is cancelled and refunded
+	e.tipHandle(4, 2, true)
+	e.idDelete(3, []string{"site"}) // request 3 names the deleted record: cancelled and refunded
+	e.setProperty(govtypes.MinIdentityApprovalTip, 1000)
+	e.tipRequestIDs(2, 4, ids(2), 500) // below the new minimum
+	e.tipHandle(1, 4, false)
+	e.setProperty(govtypes.UnstakingPeriod, 604800)
+	e.undelegate(3, 0, "ukex", 3_000_000)
+	e.dappReclaim(3, 4_000_000)
+	e.dappUpsert(&d) // drafted before the reclaim
+	e.spUpdate("sp1", 250, true)
+	e.basketEdit(3, 2)
+	e.collUpdate([]collectivestypes.WeightedSpendingPool{{Name: "sp2", Weight: sdk.OneDec()}}, 14400)
+	e.slash(0, 10)
+	e.end()
+	e.begin(700_000, 0)
+	for _, un := range e.c.App.MultiStakingKeeper.GetAllUndelegations(e.ctx()) {
+		e.claimUndelegation(3, un.Id)
+	}
+	e.spClaim(0, "sp1")
+	e.end()
+	e.reimport()
+}
+
 // layer2 MintIssueTx mints the native token
 func scenarioNativeIssue(e *env) {
 	e.setup()
@@ -461,7 +648,7 @@ func main() {
 	for _, sc := range []struct {
 		name string
 		f    func(*env)
-	}{{"scenario:slash_then_redeem", scenarioSlash}, {"scenario:reward_rounding", scenarioRounding}, {"scenario:native_issue", scenarioNativeIssue}, {"scenario:proposal_payouts", scenarioProposals}, {"scenario:rotation_reimport", scenarioRotation}} {
+	}{{"scenario:slash_then_redeem", scenarioSlash}, {"scenario:reward_rounding", scenarioRounding}, {"scenario:native_issue", scenarioNativeIssue}, {"scenario:proposal_payouts", scenarioProposals}, {"scenario:rotation_reimport", scenarioRotation}, {"scenario:escrows_interleaved", scenarioEscrows}} {
 		e := newEnv(seed, dist)
 		sc.f(e)
 		finish(e, sc.name, seed)
